@@ -103,7 +103,70 @@ class StmtMixin(object):
     if m is None:
       raise Unsupported('statement %s at line %s' % (type(node).__name__, getattr(node, 'lineno', '?')))
     self.stmts_seen += 1
-    return m(node, st, cx)
+    ghosts = self.ghosts_at(cx, node)
+    if not ghosts:
+      return m(node, st, cx)
+    return self._with_ghost(m, node, st, cx, ghosts)
+
+  def ghosts_at(self, cx, node):
+    """Ghost statements the sidecar attaches after this (simple) statement, matched by its
+    unparsed text within the function under contract."""
+    spec = cx.spec
+    if spec is None or not getattr(spec, 'ghost', None) or cx.qual != spec.name:
+      return None
+    if isinstance(node, (ast.If, ast.While, ast.For, ast.Try, ast.With, ast.FunctionDef)):
+      return None
+    txt = ast.unparse(node).strip()
+    hits = [g for g in spec.ghost if g.get('after', g.get('before')).strip() == txt]
+    for g in hits:
+      self.ghost_hits.add((spec.name, g.get('after', g.get('before')).strip()))
+    return hits or None
+
+  def _ghost_stmts(self, ghosts, node):
+    stmts = []
+    for g in ghosts:
+      for line in g['do']:
+        stmts.extend(ast.parse(line).body)
+    for n in ast.walk(ast.Module(body=stmts, type_ignores=[])):
+      if not hasattr(n, 'lineno'):
+        n.lineno = getattr(node, 'lineno', 0)
+        n.col_offset = 0
+    return stmts
+
+  def _with_ghost(self, m, node, st, cx, ghosts):
+    before = [g for g in ghosts if 'before' in g]
+    ghosts = [g for g in ghosts if 'after' in g]
+    if before:
+      self.ghost_depth += 1
+      try:
+        pre = list(self.exec_block(self._ghost_stmts(before, node), st, cx))
+      finally:
+        self.ghost_depth -= 1
+    else:
+      pre = [(st, ('next', None))]
+    for s0, o0 in pre:
+      if o0[0] != 'next':
+        yield s0, o0
+        continue
+      for o in self._with_ghost_after(m, node, s0, cx, ghosts):
+        yield o
+
+  def _with_ghost_after(self, m, node, st, cx, ghosts):
+    for s1, out in m(node, st, cx):
+      if out[0] != 'next':
+        yield s1, out
+        continue
+      if not ghosts:
+        yield s1, out
+        continue
+      stmts = self._ghost_stmts(ghosts, node)
+      self.ghost_depth += 1
+      try:
+        outs = list(self.exec_block(stmts, s1, cx))
+      finally:
+        self.ghost_depth -= 1
+      for o in outs:
+        yield o
 
   # ------------------------------------------------------------------ simple statements
   def ex_Pass(self, node, st, cx):
